@@ -40,7 +40,7 @@ NCfg == 12
 \* user generator instances that may be shared: 1 = MaxStepGenerator(base_step=1, num_steps=12)
 \* (ratio left to its n-dependent default), 2 = MinStepGenerator(base_step=2^-10, step_ratio=2, num_steps=10)
 \* generator 0 = the object's own default generator
-SharedGens == {1, 2, 3, 4}  \* 3 = MaxStepGenerator(base_step=1, step_ratio=1.64, num_steps=12): a ratio close to the default 1.6
+SharedGens == {1, 2, 3, 4, 5, 6}  \* 3 = MaxStepGenerator(base_step=1, step_ratio=1.64, num_steps=12): a ratio close to the default 1.6
                             \* 4 = MinStepGenerator(base_step=2^-13, step_ratio=2, num_steps=2): so few steps that the extrapolation
                             \*     stages see fewer estimates than they have terms (truncated rules must not outlive the call)
 Xs == {1, 2, 3, 4}
@@ -49,7 +49,9 @@ RealStep == {"central", "forward", "backward"}
 NoObj == [alive |-> FALSE, m |-> "central", n |-> 1, o |-> 2, g |-> 0]
 
 \* step ratio the object's generator delivers for derivative order n
-RatioTag(g, n) == IF g \in {2, 4} THEN <<2, 1>> ELSE IF g = 3 THEN <<41, 25>> ELSE IF n = 1 THEN <<2, 1>> ELSE <<8, 5>>
+\* 5 = MaxStepGenerator(base_step=1, step_ratio=1.3, num_steps=12), 6 = MinStepGenerator(base_step=2^-8, step_ratio=1.3, num_steps=10): the SAME
+\* inexact ratio reaches the rule once raw (Max) and once made exact (Min); both mean the one cache entry of the exact ratio
+RatioTag(g, n) == IF g \in {2, 4} THEN <<2, 1>> ELSE IF g = 3 THEN <<41, 25>> ELSE IF g \in {5, 6} THEN <<13, 10>> ELSE IF n = 1 THEN <<2, 1>> ELSE <<8, 5>>
 
 UsesRule(ob) == ob.n > 0 /\ ob.m # "multicomplex"
 KeyOf(ob) == <<RatioTag(ob.g, ob.n), Parity(ob.m, ob.n, ob.o), NumTerms(ob.m, ob.n, ob.o)>>
@@ -167,7 +169,7 @@ GenRemembersLastCall ==
       \E k \in DOMAIN gens : gens[k] = <<last.res.x, last.obj.m, last.obj.n, last.res.mo>> \/ gens[k][1] = 0
 \* every cached key is the key of some configuration's rule (no foreign keys)
 CacheKeysWellFormed ==
-  \A k \in cache : k[2] \in 0..6 /\ k[3] >= 1 /\ k[1] \in {<<2, 1>>, <<8, 5>>, <<41, 25>>}
+  \A k \in cache : k[2] \in 0..6 /\ k[3] >= 1 /\ k[1] \in {<<2, 1>>, <<8, 5>>, <<41, 25>>, <<13, 10>>}
 \* set-and-restore is the identity on the object projection
 RestoreIsIdentity ==
   \A i \in 1..NObj : objs[i].alive => objs[i].n \in 0..3 /\ objs[i].o \in {1, 2, 3, 4}
